@@ -77,6 +77,56 @@ func casePrio(c *vlib.Cases, eps []ep, draws int) {
 	c.Emit(map[string]any{"kind": "prio", "eps": eps, "draws": draws, "impl": map[string]any{"picked": picked}})
 }
 
+// ---- priority, one selector over a history of different lists (the proxy keeps one selector for its life time and
+// the candidate list changes with every health transition): D draws on each list in turn; which ids each list yielded
+func casePrioSeq(c *vlib.Cases, lists [][]ep, draws int) {
+	sel, _ := newSel(balancer.DefaultBalancerPriority)
+	var picked [][]int
+	for _, eps := range lists {
+		l, ids := mk(eps)
+		seen := map[int]bool{}
+		for i := 0; i < draws; i++ {
+			e, err := sel.Select(context.Background(), l)
+			seen[idOf(ids, e, err)] = true
+		}
+		p := []int{}
+		for k := range seen {
+			p = append(p, k)
+		}
+		sort.Ints(p)
+		picked = append(picked, p)
+	}
+	c.Emit(map[string]any{"kind": "prioseq", "lists": lists, "draws": draws, "impl": map[string]any{"picked": picked}})
+}
+
+// a list that differs from eps in one respect: its order, one status, one priority, or one entry more or less
+func variantOf(r *vlib.Rng, eps []ep) []ep {
+	out := append([]ep(nil), eps...)
+	if len(out) == 0 {
+		return genEps(r, 1+r.Intn(3), 3, 0, true)
+	}
+	switch r.Intn(6) {
+	case 0, 1: // the same entries in another order (ids move with them)
+		for i := len(out) - 1; i > 0; i-- {
+			j := r.Intn(i + 1)
+			out[i], out[j] = out[j], out[i]
+		}
+	case 2: // rotated by one
+		out = append(out[1:], out[0])
+	case 3:
+		out[r.Intn(len(out))].Status = string(vlib.Pick(r, statuses))
+	case 4:
+		out[r.Intn(len(out))].Prio = r.Intn(4)
+	default:
+		if len(out) > 1 && r.Bool() {
+			out = out[:len(out)-1]
+		} else {
+			out = append(out, ep{ID: len(out) + 10, Prio: r.Intn(4), Status: string(vlib.Pick(r, statuses))})
+		}
+	}
+	return out
+}
+
 // ---- round robin: one selector, a sequence of lists (mostly the same list)
 func caseRR(c *vlib.Cases, lists [][]ep) {
 	sel, _ := newSel(balancer.DefaultBalancerRoundRobin)
@@ -280,6 +330,25 @@ func main() {
 	for i := 0; i < nr; i++ {
 		casePrio(c, genEps(r, 1+r.Intn(5), 3, 0, true), draws)
 		c.Count("prio.random")
+	}
+
+	// priority: one selector, histories of related lists (A, a variant of A, A again, ...)
+	nps := 150
+	if thorough {
+		nps = 3000
+	}
+	for i := 0; i < nps; i++ {
+		a := genEps(r, 2+r.Intn(4), 3, 0, true)
+		lists := [][]ep{a}
+		for k := 1 + r.Intn(4); k > 0; k-- {
+			if r.Chance(1, 3) {
+				lists = append(lists, a)
+			} else {
+				lists = append(lists, variantOf(r, lists[len(lists)-1]))
+			}
+		}
+		casePrioSeq(c, lists, 400)
+		c.Count("prio.history")
 	}
 
 	// round robin: stable list, k rounds (+ occasional list change mid-sequence)
